@@ -6,6 +6,7 @@ import (
 	"context"
 	"io"
 
+	"github.com/jech/storrent/hash"
 	"github.com/jech/storrent/path"
 	"github.com/jech/storrent/peer"
 	"github.com/jech/storrent/webseed"
@@ -164,6 +165,106 @@ func H_C14_writer() {
 			if s < n1 && n2 == 0 {
 				vAssert(data[j] == src.data[s], "stream byte s is stored at offset0+s")
 			}
+		}
+	}
+}
+
+// H_C14_release: reservation to release, end to end: the blocks maybeWebseed reserves for a fetch
+// (in-flight count 1 on each block of the range, 0 elsewhere; the range is whole blocks or runs
+// to the end of the piece, as H_C14_maybeWebseed establishes) - then the REAL writer fed from a
+// source that is short, exact, over-long or failing - then every event it emitted handled by the
+// REAL tor.handleEvent: afterwards no block of the torrent is left reserved, whatever the length
+// of the torrent's last block.
+func H_C14_release() {
+	ps := uint32(vParam("ps"))
+	total := vI64("total")
+	vAssume(total >= 1 && total <= int64(1)<<uint(vParam("tb")))
+	t := &Torrent{Hash: hash.Hash(make([]byte, 20)), requested: Requested{pieces: make(map[uint32]*RequestedPiece)}}
+	t.Pieces.MetadataComplete(ps, total)
+	t.inFlight = make([]uint8, (total+16383)/16384)
+	t.PieceHashes = make([]hash.Hash, t.Pieces.Num())
+	t.infoComplete = 1
+	t.Event = make(chan peer.TorEvent, 512)
+	t.Done = make(chan struct{})
+	index := vU32("index")
+	vAssume(int64(index) < (total+int64(ps)-1)/int64(ps))
+	pl := t.Pieces.PieceLength(index)
+	offset := vU32("offset")
+	vAssume(offset%16384 == 0 && offset < pl)
+	length := vU32("length")
+	vAssume(length >= 1 && length <= pl && offset <= pl-length && length <= 2*16384)
+	vAssume(length%16384 == 0 || offset+length == pl)
+	first := index*(ps/16384) + offset/16384
+	n := (length + 16383) / 16384
+	for i := uint32(0); i < n; i++ {
+		t.inFlight[first+i] = 1
+	}
+	w := NewWriter(t, index, offset, length)
+	src := &vSrcReader{data: vBytes("src", 2*16384+5), fail: vBool("fail")}
+	w.ReadFrom(src)
+	w.Close()
+	vDrain(t)
+	vReach("drained")
+	k := vU32("k")
+	if int(k) < len(t.inFlight) {
+		vAssert(t.inFlight[k] == 0, "every block reserved for the fetch is released when it ends")
+	}
+}
+
+// the model web server of H_C14_gr: file i holds vGRFile[i]; a request for (offset, length) of a
+// file is answered with the first k <= length bytes of that range (k solver-chosen: exact, short
+// or empty - a well-formed short answer included), cut into arbitrary reads, and reports k with
+// or without an error.
+var vGRFile [2][]byte
+var vGRCalls int
+
+func vGRGet(ws *webseed.GetRight, ctx context.Context, proxy string, name string, file []string, flength, offset, length int64, w io.Writer) (int64, error) {
+	fi := 0
+	if file[0] == "f1" {
+		fi = 1
+	}
+	vGRCalls++
+	k := int64(vFreshInt("gk"))
+	vAssume(k >= 0 && k <= length)
+	n, _ := w.(io.ReaderFrom).ReadFrom(&vSrcReader{data: vGRFile[fi][offset : offset+k], reads: 1})
+	if k < length && vBool("gerr") {
+		return n, io.ErrUnexpectedEOF
+	}
+	return n, nil
+}
+
+// H_C14_gr: a GetRight fetch of a whole 32 KiB piece that spans two files (the first of any
+// length 1..32767), through the REAL webseedGR, fileChunks and writer, against the model server
+// above: every byte that ends up stored in the piece is the byte of the file that owns that
+// offset - a short answer for the first file never lets the second file's bytes slide into the
+// gap - and nothing is fetched after a short answer.
+func H_C14_gr() {
+	l0 := vI64("l0")
+	vAssume(l0 >= 1 && l0 < 32768)
+	t := &Torrent{Hash: hash.Hash(make([]byte, 20)), Name: "n", requested: Requested{pieces: make(map[uint32]*RequestedPiece)}}
+	t.Files = []Torfile{{Path: path.Path{"f0"}, Offset: 0, Length: l0}, {Path: path.Path{"f1"}, Offset: l0, Length: 32768 - l0}}
+	t.Pieces.MetadataComplete(32768, 32768)
+	t.inFlight = make([]uint8, 2)
+	t.PieceHashes = make([]hash.Hash, 1)
+	t.infoComplete = 1
+	t.Event = make(chan peer.TorEvent, 512)
+	t.Done = make(chan struct{})
+	vGRFile[0], vGRFile[1] = make([]byte, 32768), make([]byte, 32768)
+	vHavocBytes(vGRFile[0], "file0")
+	vHavocBytes(vGRFile[1], "file1")
+	vGRCalls = 0
+	ws := webseed.VNew("http://ws/", true).(*webseed.GetRight)
+	webseedGR(context.Background(), ws, t, 0, 0, 32768)
+	vReach("fetched")
+	vAssert(vGRCalls >= 1 && vGRCalls <= 2, "each file of the range is asked for at most once")
+	j := vU32("j")
+	data := t.Pieces.VData(0)
+	if len(data) > 0 && j < 32768 && t.Pieces.VHasBlock(0, int(j/16384)) {
+		vReach("stored")
+		if int64(j) < l0 {
+			vAssert(data[j] == vGRFile[0][j], "a stored byte is the byte of the file that owns its offset (first file)")
+		} else {
+			vAssert(data[j] == vGRFile[1][int64(j)-l0], "a stored byte is the byte of the file that owns its offset (second file)")
 		}
 	}
 }
